@@ -262,6 +262,8 @@ ssize_t send(int fd, const void *buf, size_t len, int flags)
         alarm_add("c05-blocking-io", fd, "send() on a descriptor without O_NONBLOCK inside %s on a non-blocking socket", cur.api);
     if (watch_c08 && e && e->owner == VS_OWN_HARNESS)
         alarm_add("c08-foreign-fd", fd, "send() on descriptor %d which XCM did not create (in %s)", fd, cur.api);
+    if (watch_c08 && cur.api && !strcmp(cur.api, "xcm_cleanup"))
+        alarm_add("c08-cleanup-io", fd, "send(%zu bytes) on descriptor %d during xcm_cleanup (the connection belongs to the owner process)", len, fd);
     if (fail_now(VS_SEND, fd)) { errno = p->fail_errno; return -1; }
     bool data = e && e->kind != 0 && !e->is_ctl;
     if (p && data && !p->quiet && len > 0) {
@@ -464,6 +466,8 @@ int epoll_ctl(int epfd, int op, int fd, struct epoll_event *ev)
         if (fd >= 0 && fd < MAXFD && fds[fd].owner == VS_OWN_HARNESS && op != EPOLL_CTL_DEL)
             alarm_add("c08-foreign-fd", fd, "epoll_ctl(op %d) registering descriptor %d which XCM did not create (in %s)", op, fd, cur.api);
     }
+    if (cur.active && watch_c08 && cur.api && !strcmp(cur.api, "xcm_cleanup"))
+        alarm_add("c08-cleanup-epoll_ctl", fd, "epoll_ctl(op %d, fd %d) on epoll instance %d during xcm_cleanup: the instance is shared with the owner process", op, fd, epfd);
     int rc = real_epoll_ctl(epfd, op, fd, ev);
     int se = errno;
     if (cur.active) vs_note("epoll_ctl ep%d op%d fd%d ev%x -> %d e%d (%s ep%d)", epfd, op, fd, ev ? ev->events : 0, rc, rc < 0 ? se : 0, cur.api, cur.ep);
@@ -579,5 +583,7 @@ int shutdown(int fd, int how)
     REAL(shutdown);
     if (cur.active && watch_c08 && fd >= 0 && fd < MAXFD && fds[fd].owner == VS_OWN_HARNESS)
         alarm_add("c08-foreign-fd", fd, "shutdown() on descriptor %d which XCM did not create (in %s)", fd, cur.api);
+    if (cur.active && watch_c08 && cur.api && !strcmp(cur.api, "xcm_cleanup"))
+        alarm_add("c08-cleanup-io", fd, "shutdown(%d) during xcm_cleanup (the connection belongs to the owner process)", fd);
     return real_shutdown(fd, how);
 }
